@@ -200,7 +200,12 @@ class G:
                         # self-directed deferred request, after or BEFORE the operations on other sources (an immediate
                         # operation on somebody else must leave the request of the running source alone)
                         req = {"op": r.choice(["disable", "update"]), "ts": s}
-                        if r.random() < 0.5:
+                        y = r.random()
+                        if y < 0.2:
+                            # two requests of the running source on itself: the LAST one is the one that counts
+                            ops.append({"op": "update" if req["op"] == "disable" else "disable", "ts": s})
+                            ops.append(req)
+                        elif y < 0.55:
                             ops.append(req)
                         else:
                             ops.insert(0, req)
